@@ -21,4 +21,90 @@ def c03(res, tier, seed):
             "trusted": KANI_TRUSTED}
 
 
-CHECKS = {"C03": c03}
+C04_PLAIN = ["c04_t01", "c04_t04", "c04_t11", "c04_t06", "c04_t07_n1", "c04_t07_n2", "c04_t07_n3", "c04_t07_n4",
+             "c04_t13_n1", "c04_t13_n2", "c04_t13_n3", "c04_t13_n4", "c04_t08", "c04_t09", "c04_t10",
+             "c04_t15_88", "c04_t15_110", "c04_t15_160", "c04_t16_96", "c04_t16_144", "c04_t17", "c04_t18",
+             "c04_t20_n1", "c04_t20_n2", "c04_t20_n3", "c04_t20_n4", "c04_t27"]
+C04_TEXT = ["c04_t05", "c04_t12", "c04_t14", "c04_t19", "c04_t21", "c04_t24a", "c04_t24b"]
+SKIPTEXT_NOTE = ("stub ais::messages::parsers::parse_6bit_ascii -> skip_text_stub (same end-of-input rule, same bits consumed, "
+                 "empty string) in the harnesses of the text-bearing types 5/12/14/19/21/24; the text itself is C13's subject")
+
+
+def c04(res, tier, seed):
+    cfgs = ("std",) if tier == "quick" else ALL
+    jobs = []
+    for h in C04_PLAIN + C04_TEXT:
+        jobs += K(h, cfgs, timeout=600 if tier == "quick" else 1800)
+    run_kani_jobs(res, jobs)
+    res.assumptions += ["payload length = the specification length of the layout branch (other lengths: C14)",
+                        "type bits pinned to the type only where the parser branches on them (1-3, 4, 11, 9)", SKIPTEXT_NOTE,
+                        "quick tier: std configuration only (alloc / no-alloc: thorough tier and C18)"]
+    return {"functions_encoded": ["<X as AisMessageType>::parse for the 21 message structs (compiled, incl. nom bit parsers)"],
+            "bounds": {"payload": "exact spec length per layout branch, all bits symbolic", "unwind": 6},
+            "technique": "Kani/CBMC: per layout, decoded field == bits(payload, offset, width) from the ITU-R M.1371-5 tables, all payloads at once",
+            "trusted": KANI_TRUSTED + ["field tables in kani/src/p_c04.rs (transcribed from M.1371-5; cross-checked on the repo's golden vectors)"]}
+
+
+def simple(names_plain, names_text, functions, bounds, technique, assumptions, trusted_extra=()):
+    def f(res, tier, seed):
+        cfgs = ("std",) if tier == "quick" else ALL
+        jobs = []
+        for h in list(names_plain) + list(names_text):
+            jobs += K(h, cfgs, timeout=900 if tier == "quick" else 2700)
+        run_kani_jobs(res, jobs)
+        res.assumptions += list(assumptions) + ["quick tier: std configuration only (alloc / no-alloc: thorough tier and C18)"]
+        if names_text:
+            res.assumptions.append(SKIPTEXT_NOTE)
+        return {"functions_encoded": functions, "bounds": bounds, "technique": technique, "trusted": KANI_TRUSTED + list(trusted_extra)}
+    return f
+
+
+C09_PLAIN = ["c09_message_type_leaf"] + ["c09_own_t%02d" % t for t in (1, 4, 6, 7, 8, 9, 10, 11, 13, 15, 16, 17, 18, 20, 27)]
+C09_TEXT = ["c09_own_t%02d" % t for t in (5, 12, 14, 19, 21, 24)]
+C11_PLAIN = ["c10_leaf_lon", "c10_leaf_lat", "c10_leaf_sog_cog", "c11_t01", "c11_t04", "c11_t11", "c11_t09", "c11_t15", "c10_t17", "c11_t18", "c11_t27"]
+C11_TEXT = ["c11_t05", "c11_t19", "c11_t21"]
+C12_PLAIN = ["c12_leaf_small", "c12_leaf_shiptype", "c12_t01", "c12_t04", "c12_t11", "c12_t09", "c12_t18", "c12_t27"]
+C12_TEXT = ["c12_t05", "c12_t19", "c12_t21", "c12_t24"]
+C16_PLAIN = ["c16_t01", "c16_t04", "c16_t11", "c16_t18", "c16_t09"]
+
+PAYLOAD_FN = ["<X as AisMessageType>::parse for the message structs named by the harnesses (compiled, incl. nom bit parsers)"]
+
+C10_FAST = {"c10w_t01": "c10_t01", "c10w_t04": "c10_t04", "c10w_t11": "c10_t11", "c10w_t09": "c10_t09", "c10w_t18": "c10_t18",
+            "c10w_t19": "c10_t19", "c10w_t21": "c10_t21"}
+C10_LEAVES = ["c10_leaf_lon", "c10_leaf_lat", "c10_leaf_sog_cog"]
+C10_DIRECT_CHEAP = ["c10_t05", "c10_t17", "c10_t27_lon", "c10_t27_lat", "c10_t27_sogcog"]
+
+
+def c10(res, tier, seed):
+    cfgs = ("std",) if tier == "quick" else ALL
+    jobs = []
+    for h in C10_LEAVES + C10_DIRECT_CHEAP + sorted(C10_FAST):
+        jobs += K(h, cfgs, timeout=900 if tier == "quick" else 2700)
+    if tier == "thorough":
+        # the direct float harnesses (no leaf stubs) for every carrying type, std only (5-6 min each)
+        for h in sorted(set(C10_FAST.values())):
+            jobs += K(h, ("std",), timeout=2700)
+    run_kani_jobs(res, jobs, fallback=C10_FAST)
+    res.assumptions += ["'correct to single-precision rounding' read as ULP distance <= 1 from the single-precision quotient (DESIGN.md C10)",
+                        "wiring harnesses c10w_*: navigation::parse_longitude/latitude/speed_over_ground/cog replaced by tagged identity "
+                        "encodings (integer reasoning only); the leaves are verified for every raw value by c10_leaf_*; a failing c10w_* "
+                        "harness is re-decided by the direct float harness of the same type before anything is reported", SKIPTEXT_NOTE,
+                        "quick tier: std configuration only"]
+    return {"functions_encoded": PAYLOAD_FN + ["navigation::parse_longitude/latitude/speed_over_ground/cog", "parsers::signed_i32"],
+            "bounds": {"payload": "exact spec length, all bits symbolic (all 2^28/2^27/2^18/2^17 raw coordinates incl. the most negative)", "unwind": 6},
+            "technique": "Kani/CBMC: leaf f32 within ULP distance 1 of (raw as f32)/D for every raw; wiring: leaf argument == sign_extend(bits) per type; exact equality for undivided fields",
+            "trusted": KANI_TRUSTED}
+
+
+c11 = simple(C11_PLAIN, C11_TEXT, PAYLOAD_FN + ["navigation::parse_*", "parsers::parse_year/month/day/minsec"],
+             {"payload": "exact spec length, all bits symbolic", "unwind": 6},
+             "Kani/CBMC: field absent <=> raw bits == sentinel at the field's own resolution; present values equal the raw bits", [])
+c12 = simple(C12_PLAIN, C12_TEXT, PAYLOAD_FN + ["NavigationStatus/ManeuverIndicator/EpfdType/ShipType/NavaidType/SyncState::parse, Dte::from, Accuracy/AssignedMode/CarrierSense::parse, From<ShipType> for u8"],
+             {"codes": "all 256 values of every code (two-variable query for injectivity)", "unwind": 6},
+             "Kani/CBMC: code -> variant table from M.1371 compared with matches!, injectivity as a two-variable query, wiring per carrying type", [])
+c16 = simple(C16_PLAIN, [], PAYLOAD_FN + ["radio_status::parse_radio, SotdmaMessage::parse, ItdmaMessage::parse, SubMessage::parse"],
+             {"payload": "168 bits, all symbolic: all 2^19 states (2^20 with selector) x all other bits", "unwind": 6},
+             "Kani/CBMC: decoded RadioStatus structurally equal to the SOTDMA/ITDMA reference decode of bits 149..168 (selector 148 for 9/18)",
+             ["SOTDMA time-out 1: minute asserted only when the 7-bit spec minute is < 64 (oracle neutrality, DESIGN.md C16)"])
+
+CHECKS = {"C03": c03, "C04": c04, "C10": c10, "C11": c11, "C12": c12, "C16": c16}
